@@ -68,7 +68,12 @@ Definition depot_edges : list fedge :=
 Definition slot_allotted (m : node_id) : bool := existsb (fun '(x, _) => nid_eqb x m) slots.
 (* arcs carry at least as many vehicles as the largest allotted slot needs (since the repair "fix: flow arcs
    capped at the formation limit ...") *)
-Definition arc_upper_bound : Z := fold_left Z.max (map snd slots) type_limit_or_100.
+(* ... and as many as the longest formation any of the type's trips allows (since the repair "fix: flow arcs carry as many
+   vehicles as the longest formation of the type's trips") *)
+Definition arc_upper_bound : Z :=
+  fold_left Z.max (map (fun s => match maximal_formation_count_for nw s with Some l => l | None => 100 end)
+                       (service_nodes nw ty))
+            (fold_left Z.max (map snd slots) type_limit_or_100).
 (* arcs into [head] (a service trip, an allotted slot, or the end node of a depot) from its predecessors *)
 Definition arcs_into (head_id : node_id) (head_code : Z) : list fedge :=
   flat_map (fun pred =>
